@@ -330,8 +330,8 @@ func init() {
 		must = append(must, "kind_"+k)
 	}
 	mon.Register(&mon.Prop{
-		ID:   "C11",
-		Rule: "exhaustive: every position sequence of length 1..4 (thorough 5) over a 3x3 value grid, built as LineString, Polygon ring (as given / closed), MultiPoint, single-child collections and Feature; random: object trees of all kinds (depth<=3, empties mixed in, 1..200 positions) with coordinates from {in-range, tie-rich lattice, special values: -0, +-180/+-90 +-1ulp, +-1e308, +-MaxFloat64, subnormal; occasionally just out of range}, built through the constructors and, when the text is parseable, through Parse; every nested object is judged too. Non-trivial = distinct object with at least two positions in non-empty parts.",
+		ID:          "C11",
+		Rule:        "exhaustive: every position sequence of length 1..4 (thorough 5) over a 3x3 value grid, built as LineString, Polygon ring (as given / closed), MultiPoint, single-child collections and Feature; random: object trees of all kinds (depth<=3, empties mixed in, 1..200 positions) with coordinates from {in-range, tie-rich lattice, special values: -0, +-180/+-90 +-1ulp, +-1e308, +-MaxFloat64, subnormal; occasionally just out of range}, built through the constructors and, when the text is parseable, through Parse; every nested object is judged too. Non-trivial = distinct object with at least two positions in non-empty parts.",
 		Assumptions: []string{"finite coordinates only", "Circle is excluded (its rectangle is that of its polygon approximation; see C13)", "known findings F20 (hole outside the exterior's box) and F21 (empty child carrying positions) are matched by narrow predicates"},
 		Run:         c11Run,
 		MustSee:     must,
